@@ -40,8 +40,12 @@ def random_tls_flow(rng, idx=0, ep=None, nmax=12, big=False, segkinds=("mss", "r
     return fl
 
 
-def random_quic_flow(rng, idx=0, ep=None, napp=None, sport=443, v6=None, avoid=()):
+def random_quic_flow(rng, idx=0, ep=None, napp=None, sport=443, v6=None, avoid=(), ccid_len=None):
     s = quicsynth.random_qspec(rng, napp=napp, avoid=avoid)
+    if ccid_len is not None:
+        s.c_scid_len = ccid_len
+        if s.client_new_cid_at >= 0 and not ccid_len:
+            s.client_new_cid_at = -1
     qc = quicsynth.build_qconn(s, rng)
     ep = ep or tcpcap.random_ep(rng, v6=v6, sport=sport)
     fl = scene.quic_flow(qc, ep)
@@ -115,6 +119,7 @@ def distinct_eps(rng, n, pattern="random"):
     base = tcpcap.random_ep(rng, v6=False, odd=0.0)
     base6 = tcpcap.random_ep(rng, v6=True, odd=0.0)
     used = set()
+    pool_h, pool_p = [], []
     for i in range(n):
         for _ in range(50):
             if pattern == "same-client-host":
@@ -123,6 +128,23 @@ def distinct_eps(rng, n, pattern="random"):
                 ep = tcpcap.Endpoints(base.cmac, rng.randbytes(6), base.cip, rng.randbytes(4), base.cport, base.sport, rng.randrange(1 << 32), rng.randrange(1 << 32))
             elif pattern == "same-ports-other-hosts":
                 ep = tcpcap.Endpoints(rng.randbytes(6), rng.randbytes(6), rng.randbytes(4), rng.randbytes(4), base.cport, base.sport, rng.randrange(1 << 32), rng.randrange(1 << 32))
+            elif pattern == "same-server":
+                ep = tcpcap.Endpoints(rng.randbytes(6), base.smac, rng.randbytes(4), base.sip, rng.randrange(1024, 65536), base.sport, rng.randrange(1 << 32), rng.randrange(1 << 32))
+            elif pattern == "mirrored":
+                # X:p -> Y:q next to Y:p -> X:q: each host is the other's server, same port numbers
+                if i % 2 == 0:
+                    m = tcpcap.Endpoints(rng.randbytes(6), rng.randbytes(6), rng.randbytes(4), rng.randbytes(4), rng.randrange(1024, 65536), base.sport, rng.randrange(1 << 32), rng.randrange(1 << 32))
+                    ep = m
+                else:
+                    m = eps[-1]
+                    ep = tcpcap.Endpoints(m.smac, m.cmac, m.sip, m.cip, m.cport, m.sport, rng.randrange(1 << 32), rng.randrange(1 << 32))
+            elif pattern == "small-pool":
+                # every coordinate drawn from a tiny pool: tuples that agree in any subset of (hosts, ports) and in either role
+                if not eps and not used:
+                    pool_h[:] = [(rng.randbytes(6), rng.randbytes(4)) for _ in range(3)]
+                    pool_p[:] = [rng.randrange(1024, 65536) for _ in range(max(2, n // 3))]
+                (cm, ci), (sm, si) = rng.sample(pool_h, 2)
+                ep = tcpcap.Endpoints(cm, sm, ci, si, rng.choice(pool_p), base.sport, rng.randrange(1 << 32), rng.randrange(1 << 32))
             elif pattern == "v4-v6-twins":
                 b = base if i % 2 == 0 else base6
                 ep = tcpcap.Endpoints(b.cmac, b.smac, b.cip, b.sip, 1024 + (base.cport + i // 2) % 60000, base.sport, rng.randrange(1 << 32), rng.randrange(1 << 32))
@@ -138,4 +160,4 @@ def distinct_eps(rng, n, pattern="random"):
     return eps
 
 
-EP_PATTERNS = ["random", "same-client-host", "same-client-port", "same-ports-other-hosts", "v4-v6-twins"]
+EP_PATTERNS = ["random", "same-client-host", "same-client-port", "same-ports-other-hosts", "v4-v6-twins", "mirrored", "small-pool", "same-server"]
